@@ -173,7 +173,8 @@ class Check(DiffCheck):
     needs_libphoton = True
     coq_dirs = ['Base', 'C04', 'Sched', 'C02']
     coq_targets = ['C02/C02_Base.vo', 'C02/C02_Cons.vo', 'C02/C02_Safe.vo', 'C02/C02_Refute.vo', 'C02/C02_Locks.vo', 'C02/C02_LockProto.vo',
-                   'C02/C02_Locks2.vo', 'C02/C02_Locks3.vo', 'C02/C02_Summ.vo', 'C02/C02_Credit.vo', 'C02/C02_Coop.vo']
+                   'C02/C02_Locks2.vo', 'C02/C02_Locks3.vo', 'C02/C02_Summ.vo', 'C02/C02_Credit.vo', 'C02/C02_Struct.vo', 'C02/C02_Other.vo',
+                   'C02/C02_NLW.vo', 'C02/C02_Coop.vo']
     properties_v = 'C02/C02_Properties.v'
     extract_v = 'C02/C02_Extract.v'
     model_module = 'C02_model'
@@ -181,7 +182,7 @@ class Check(DiffCheck):
             'sem_signal (0-5), interrupt (EINTR, EAGAIN, ETIMEDOUT, ESHUTDOWN), usleep, yield, count()/head probes; 1-2 semaphores, initial count 0-5; '
             'uniform-demand programs in both resume modes, mixed-demand programs in in-order mode; shapes: queue of waiters + signaller, barging arrival; '
             'every program ends with a probe (head demand, count) at quiescence.  non-trivial = a wait blocks and is later resumed, times out or is interrupted')
-    assumptions = ['sequential consistency', 'positive theorem sem_no_lost_wakeup_uniform: all waits on the semaphore use one demand value (class of known finding "barging" beyond it)',
+    assumptions = ['sequential consistency', 'positive theorem sem_no_lost_wakeup_inorder_uniform (in-order resume mode): all waits on the semaphore use one demand value (class of known finding "barging" beyond it)',
                    'out-of-order mode with mixed demands is the class of known finding F9 (self-deadlock)']
     trusted_base = ['E2 hooks H-clock/H-idle', 'harness reads thread::semaphore_count of q.th at offset 0x48 (static_assert in thread.cpp) for the head probe']
     partial_note = ('cross-vCPU interleavings are covered by the theorems over the fine-grained model only; the tie to the code is single-vCPU (E2) '
